@@ -271,7 +271,7 @@ func buildPlan(seed int64, thorough bool) *plan {
 	// E. random multi-cuts of both messages
 	nMulti := 200
 	if thorough {
-		nMulti = 4000
+		nMulti = 8000
 	}
 	for i := 0; i < nMulti; i++ {
 		k := addrKinds[rng.Intn(6)]
@@ -315,7 +315,7 @@ func buildPlan(seed int64, thorough bool) *plan {
 	nRelay := 120
 	maxTotal := 600 << 10
 	if thorough {
-		nRelay = 2500
+		nRelay = 4000
 		maxTotal = 3 << 20
 	}
 	for i := 0; i < nRelay; i++ {
@@ -343,7 +343,7 @@ func buildPlan(seed int64, thorough bool) *plan {
 	// I..L scenarios
 	nScen := 24
 	if thorough {
-		nScen = 320
+		nScen = 480
 	}
 	for i := 0; i < nScen; i++ {
 		p.scenarios = append(p.scenarios, Case{Kind: "multi", Class: "multi-socket", Multi: &MultiCase{K: 2 + i%3, Seed: rng.Int63(), Steps: 12 + rng.Intn(20)}})
@@ -370,10 +370,10 @@ func buildPlan(seed int64, thorough bool) *plan {
 	}
 	nConc := 32
 	if thorough {
-		nConc = 320
+		nConc = 480
 	}
 	for i := 0; i < nConc; i++ {
-		p.concurrent = append(p.concurrent, Case{Kind: "conc", Class: "concurrent", Conc: &ConcCase{Seed: rng.Int63(), Clients: 16, Proxies: 2 + i%3, Rounds: 2 + i%2, Rport: 1 + i%3}})
+		p.concurrent = append(p.concurrent, Case{Kind: "conc", Class: "concurrent", Conc: &ConcCase{Seed: rng.Int63(), Clients: 16, Proxies: 2 + i%3, Rounds: 3 + i%2, Rport: 1 + i%3}})
 	}
 	return p
 }
